@@ -658,6 +658,13 @@ func ruleC01d(c *Ctx) {
 	bTaint := map[ssa.Value]bool{}
 	if urlParts != nil {
 		var work []ssa.Value
+		// the URL path itself, before it is cut into parts
+		for _, prm := range binder.Params {
+			if isStringType(prm.Type()) {
+				bTaint[prm] = true
+				work = append(work, prm)
+			}
+		}
 		eachInstr(binder, func(i ssa.Instruction) {
 			if ia, ok := i.(*ssa.IndexAddr); ok && strip(ia.X) == urlParts {
 				for _, r := range referrers(ia) {
@@ -679,6 +686,9 @@ func ruleC01d(c *Ctx) {
 						work = append(work, x)
 					}
 				case *ssa.Call:
+					if ssa.Value(x) == urlParts {
+						continue // the cut itself: its elements are the seeds above
+					}
 					if _, isB := x.Call.Value.(*ssa.Builtin); !isB && !bTaint[x] {
 						bTaint[x] = true
 						work = append(work, x)
